@@ -253,6 +253,7 @@ func (ob *Obligation) Script(getModel bool) string {
 			}
 		}
 		s.Assert(x.o.Not(goal))
+		ob.assertSmall(s)
 		var mts []*Term
 		if getModel {
 			for _, it := range x.modelItems() {
@@ -280,6 +281,7 @@ func (ob *Obligation) Script(getModel bool) string {
 		}
 		s.Assert(x.o.Not(ob.Goal))
 	}
+	ob.assertSmall(s)
 	var mts []*Term
 	if getModel {
 		for _, it := range x.modelItems() {
@@ -287,6 +289,20 @@ func (ob *Obligation) Script(getModel bool) string {
 		}
 	}
 	return s.String(getModel, mts)
+}
+
+// assertSmall (refutation pass): ask for a counterexample whose string and slice parameters are at most
+// ob.SmallLen bytes long, so that it can be replayed on the real code.
+func (ob *Obligation) assertSmall(s *Script) {
+	if ob.SmallLen <= 0 {
+		return
+	}
+	o := ob.x.o
+	for _, it := range ob.x.modelItems() {
+		if strings.HasSuffix(it.Key, ".len") && it.Term.Sort == o.IdxSort() {
+			s.Assert(o.IdxLe(it.Term, o.Idx(int64(ob.SmallLen))))
+		}
+	}
 }
 
 // ModelValues maps the keys of modelItems to the values of a (get-value ...) answer.
